@@ -72,31 +72,52 @@ def executeImports (imports : List String) : Except CErrKind (List (String × St
       if acc.any (fun p => p.1 == name) then .error .ambigousImport
       else .ok (acc ++ [(name, imp)])) []
 
-/-- duplicate sibling module names, recursively -/
-partial def ensureInvariants (m : Module) : Except CErrKind Unit := do
-  let rec dup : List String → Bool
-    | [] => false
-    | x :: r => r.contains x || dup r
-  if dup (m.submodules.map (·.1)) then throw .duplicateModule
-  for (_, s) in m.submodules do
-    ensureInvariants s
+/-- duplicate names in a list of sibling module names -/
+def dupNames : List String → Bool
+  | [] => false
+  | x :: r => r.contains x || dupNames r
 
-partial def flatten (m : Module) (limit : Nat) (ns : List String) (out : Array FunctionIr) :
-    Except CErrKind (Array FunctionIr) := do
-  if ns.length ≥ limit then throw .recursionLimitReached
-  let imports ← executeImports m.imports
-  let mut out := out
-  let mut i := 0
-  for (name, f) in m.functions do
+mutual
+  /-- duplicate sibling module names, recursively (structural recursion over the `Module` tree) -/
+  def ensureInvariants : Module → Except CErrKind Unit
+    | .mk subs _ _ => do
+      if dupNames (subs.map (·.1)) then throw .duplicateModule
+      ensureInvariantsSubs subs
+  /-- the loop over the submodules of `ensureInvariants` -/
+  def ensureInvariantsSubs : List (String × Module) → Except CErrKind Unit
+    | [] => pure ()
+    | (_, s) :: rest => do
+      ensureInvariants s
+      ensureInvariantsSubs rest
+end
+
+/-- the loop over the functions of one module in `flatten`: `i` is the index within the module -/
+def flattenFns (ns : List String) (imports : List (String × String)) :
+    List (String × Func) → Nat → Array FunctionIr → Except CErrKind (Array FunctionIr)
+  | [], _, out => pure out
+  | (name, f) :: rest, i, out => do
     if !isNameValid name then throw .badFunctionName
-    out := out.push { functionIndex := i, name := name, arguments := f.arguments, cards := f.cards,
-                      ns := ns, imports := imports, handle := Hash.handleFromU64 (UInt64.ofNat out.size) }
-    i := i + 1
-  for (name, s) in m.submodules do
-    -- (repaired) module names are validated like function names
-    if !isNameValid name then throw .badFunctionName
-    out ← flatten s limit (ns ++ [name]) out
-  return out
+    flattenFns ns imports rest (i + 1)
+      (out.push { functionIndex := i, name := name, arguments := f.arguments, cards := f.cards,
+                  ns := ns, imports := imports, handle := Hash.handleFromU64 (UInt64.ofNat out.size) })
+
+mutual
+  def flatten : Module → Nat → List String → Array FunctionIr → Except CErrKind (Array FunctionIr)
+    | .mk subs fns imps, limit, ns, out => do
+      if ns.length ≥ limit then throw .recursionLimitReached
+      let imports ← executeImports imps
+      let out ← flattenFns ns imports fns 0 out
+      flattenSubs subs limit ns out
+  /-- the loop over the submodules in `flatten` -/
+  def flattenSubs : List (String × Module) → Nat → List String → Array FunctionIr →
+      Except CErrKind (Array FunctionIr)
+    | [], _, _, out => pure out
+    | (name, s) :: rest, limit, ns, out => do
+      -- (repaired) module names are validated like function names
+      if !isNameValid name then throw .badFunctionName
+      let out ← flatten s limit (ns ++ [name]) out
+      flattenSubs rest limit ns out
+end
 
 /-- the stdlib module is a parameter: it is generated from `/repo` (see `Generated/Stdlib.lean`) -/
 def intoIrStream (m : Module) (std : Module) (limit : Nat) : Except CErrKind (Array FunctionIr) := do
@@ -288,6 +309,16 @@ def globalId (name : String) : CM Nat := do
     modify fun s => { s with varNames := s.varNames ++ [(hn, name)] }
   return id
 
+/-- the property chain of `read_var_card`: `StringLiteral p; GetProperty` for every non-empty `p` -/
+def readProps : List String → CM Unit
+  | [] => pure ()
+  | p :: ps => do
+    if !p.isEmpty then
+      pushInstr op.stringLiteral
+      pushStr p
+      pushInstr op.getProperty
+    readProps ps
+
 /-- `read_var_card` -/
 def readVarCard (varName : String) : CM Unit := do
   let (v, props) := match varName.splitOn "." with
@@ -300,11 +331,7 @@ def readVarCard (varName : String) : CM Unit := do
     let id ← globalId v
     pushInstr op.readGlobalVar
     emitU32 id
-  for p in props do
-    if !p.isEmpty then
-      pushInstr op.stringLiteral
-      pushStr p
-      pushInstr op.getProperty
+  readProps props
 
 /-- `super_depth(import)`: number of `super.` occurrences and the text after the last one -/
 def superDepth (imp : String) : Nat × Option String :=
@@ -348,240 +375,349 @@ def encodeJump (function : String) : CM Unit := do
 
 def closureMask : UInt64 := UInt64.ofNat Gen.closureMask
 
+/-! ## `process_card`
+
+The Rust `process_card` is one big `match`; here every arm is a *non-recursive combinator* that
+takes the already-built code of the children (`CM Unit` actions) as parameters, and
+`processCard` / `compileSubexprFrom` / `processArrayItems` are defined by mutual **structural**
+recursion over `Card` / `List Card`, applying the combinators to the recursive calls.  The
+emission order is exactly that of the Rust. -/
+
+/-- process a child under sub-index `i`: `pushSub i; m; popSub` -/
+def withSub (i : Nat) (m : CM Unit) : CM Unit := do
+  pushSub i; m; popSub
+
+/-- the first statement of `process_card`: label the current card index with the current position -/
+def cardLabel : CM Unit := do
+  let s ← get
+  insertLabel (indexHandle s.curFunction s.curIndices) s.bytecode.size
+
+/-- `encode_if_then` -/
+def encodeIfThen (skip : UInt8) (thenBlock : CM Unit) : CM Unit := do
+  pushInstr skip
+  let idx := (← get).bytecode.size
+  emitU32 0
+  thenBlock
+  patchI32 idx (← get).bytecode.size
+
+def encodeIfThenRet (skip : UInt8) (thenBlock : CM Nat) : CM Nat := do
+  pushInstr skip
+  let idx := (← get).bytecode.size
+  emitU32 0
+  let r ← thenBlock
+  patchI32 idx (← get).bytecode.size
+  return r
+
+/-- `for p in arguments.iter().rev() { add_local(p) }` (call with the reversed list) -/
+def addLocals : List String → CM Unit
+  | [] => pure ()
+  | p :: ps => do
+    let _ ← addLocal p
+    addLocals ps
+
+/-- the `RegisterUpvalue` sequence after a `Closure` instruction -/
+def emitUpvalues : List (Bool × UInt8) → CM Unit
+  | [] => pure ()
+  | (isLocal, index) :: rest => do
+    pushInstr op.copyLast
+    pushInstr op.registerUpvalue
+    emitBytes [index, if isLocal then 1 else 0]
+    emitUpvalues rest
+
+/-- body of the `ScalarInt` arm -/
+def scalarIntCode (i : Int64) : CM Unit := do
+  pushInstr op.scalarInt
+  emitBytes (le64 i.toUInt64)
+
+/-- `process_card(&Card::ScalarInt(i))`, as called by the `Repeat` arm for its hidden counter -/
+def processScalarInt (i : Int64) : CM Unit := do
+  cardLabel
+  scalarIntCode i
+
+/-- `if let Some(v) = name { let x = add_local(v); read_local_var(src); write_local_var(x) }` -/
+def bindLoopVar (name : Option String) (src : Nat) : CM Unit :=
+  match name with
+  | some v => do
+    let x ← addLocal v; readLocalVar src; writeLocalVar x
+  | none => pure ()
+
+/-- `ForEach` arm -/
+def forEachCode (i k v : Option String) (iterable body : CM Unit) : CM Unit := do
+  withSub 0 iterable
+  scopeBegin
+  let loopVar ← addLocalUnchecked ""
+  let loopItem ← addLocalUnchecked ""
+  let vIndex ← addLocalUnchecked ""
+  let kIndex ← addLocalUnchecked ""
+  let iIndex ← addLocalUnchecked ""
+  pushInstr op.beginForEach
+  emitU32 loopVar; emitU32 loopItem; emitU32 iIndex; emitU32 kIndex; emitU32 vIndex
+  let blockBegin := (← get).bytecode.size
+  pushInstr op.forEach
+  emitU32 loopVar; emitU32 loopItem; emitU32 iIndex; emitU32 kIndex; emitU32 vIndex
+  encodeIfThen op.gotoIfFalse do
+    scopeBegin
+    bindLoopVar v vIndex
+    bindLoopVar k kIndex
+    bindLoopVar i iIndex
+    withSub 1 body
+    scopeEnd
+    pushInstr op.goto
+    emitU32 blockBegin
+  scopeEnd
+
+/-- `While` arm -/
+def whileCode (cond body : CM Unit) : CM Unit := do
+  let blockBegin := (← get).bytecode.size
+  withSub 0 cond
+  pushSub 1
+  encodeIfThen op.gotoIfFalse do
+    body
+    pushInstr op.goto
+    emitU32 blockBegin
+  popSub
+
+/-- `Repeat` arm -/
+def repeatCode (i : Option String) (n body : CM Unit) : CM Unit := do
+  withSub 0 n
+  scopeBegin
+  let loopN ← addLocalUnchecked ""
+  let loopCounter ← addLocalUnchecked ""
+  writeLocalVar loopN
+  processScalarInt 0
+  writeLocalVar loopCounter
+  let blockBegin := (← get).bytecode.size
+  readLocalVar loopCounter
+  readLocalVar loopN
+  pushInstr op.less
+  encodeIfThen op.gotoIfFalse do
+    scopeBegin
+    bindLoopVar i loopCounter
+    withSub 1 body
+    scopeEnd
+    processScalarInt 1
+    readLocalVar loopCounter
+    pushInstr op.add
+    writeLocalVar loopCounter
+    pushInstr op.goto
+    emitU32 blockBegin
+  scopeEnd
+
+/-- the assignment part of the `SetVar` arm (after the value) -/
+def setVarTarget (name : String) : CM Unit :=
+  match name.splitOn "." with
+  | [] | [_] => do
+    match ← resolveVar name with
+    | .local_ i => writeLocalVar i
+    | .global => do
+      let i ← addLocal name; writeLocalVar i
+    | .upvalue i => writeUpvalue i
+  | parts => do
+    let readProps := ".".intercalate parts.dropLast
+    readVarCard readProps
+    pushInstr op.stringLiteral
+    pushStr parts.getLast!
+    pushInstr op.setProperty
+
+/-- `SetVar` arm -/
+def setVarCode (name : String) (value : CM Unit) : CM Unit := do
+  withSub 0 value
+  setVarTarget name
+
+/-- `SetGlobalVar` arm -/
+def setGlobalVarCode (name : String) (value : CM Unit) : CM Unit := do
+  withSub 0 value
+  pushInstr op.setGlobalVar
+  if name.isEmpty then fail .emptyVariable
+  let id ← globalId name
+  emitU32 id
+
+/-- `IfElse` arm -/
+def ifElseCode (cond thenC elseC : CM Unit) : CM Unit := do
+  withSub 0 cond
+  pushSub 1
+  let idxRef ← encodeIfThenRet op.gotoIfFalse do
+    thenC
+    pushInstr op.goto
+    let idx := (← get).bytecode.size
+    emitU32 0xEEF
+    return idx
+  popSub
+  withSub 2 elseC
+  patchI32 idxRef (← get).bytecode.size
+
+/-- `IfTrue` / `IfFalse` arms (`skip` = the jump that skips the body) -/
+def ifCode (skip : UInt8) (cond body : CM Unit) : CM Unit := do
+  withSub 0 cond
+  pushSub 1
+  encodeIfThen skip body
+  popSub
+
+/-- `Call` arm (`args` = `compile_subexpr(args)`) -/
+def callCode (name : String) (args : CM Unit) : CM Unit := do
+  args
+  pushInstr op.functionPointer
+  encodeJump name
+  pushInstr op.callFunction
+
+/-- `CallNative` arm -/
+def callNativeCode (name : String) (args : CM Unit) : CM Unit := do
+  args
+  pushInstr op.callNative
+  emitBytes (le32 (Hash.handleFromBytes name.toUTF8.toList))
+
+/-- `compile_begin` -/
+def compileBegin : CM Unit :=
+  modify fun s => { s with functionId := s.functionId + 1, locals := s.locals ++ [[]],
+                           upvalues := s.upvalues ++ [[]], scopeDepth := s.scopeDepth ++ [0] }
+
+/-- `compile_end` -/
+def compileEnd : CM Unit :=
+  modify fun s => { s with functionId := s.functionId - 1, locals := s.locals.dropLast,
+                           upvalues := s.upvalues.dropLast, scopeDepth := s.scopeDepth.dropLast }
+
+/-- `Closure` arm (`body` = `compile_subexpr(cards)`) -/
+def closureCode (arguments : List String) (body : CM Unit) : CM Unit := do
+  pushInstr op.goto
+  let gotoIndex := (← get).bytecode.size
+  emitU32 0xEEF
+  compileBegin
+  let s ← get
+  -- (repaired) keyed by the enclosing function's unique handle, not its module-local index
+  let fh := s.fnHandle ^^^ Hash.handleFromBytes (s.curIndices.flatMap (fun i => le32 (UInt32.ofNat i)))
+              ^^^ Hash.handleFromU64 closureMask
+  insertLabel fh s.bytecode.size
+  scopeBegin
+  addLocals arguments.reverse
+  body
+  scopeEnd
+  pushInstr op.scalarNil
+  pushInstr op.ret
+  patchI32 gotoIndex (← get).bytecode.size
+  pushInstr op.closure
+  emitBytes (le32 fh)
+  emitU32 arguments.length
+  let s ← get
+  let ups := s.upvalues.getD s.functionId []
+  emitUpvalues ups
+  compileEnd
+
+/-- `Array` arm (`items tableVar` = the loop over the elements) -/
+def arrayCode (items : Nat → CM Unit) : CM Unit := do
+  pushInstr op.initTable
+  let tableVar ← addLocalUnchecked ""
+  writeLocalVar tableVar
+  items tableVar
+  readLocalVar tableVar
+
+def unOp : UnKind → UInt8
+  | .len => op.len | .ret => op.ret | .not => op.not | .popTable => op.popTable
+
+/-- unary expression arms -/
+def unCode (k : UnKind) (c : CM Unit) : CM Unit := do
+  withSub 0 c
+  pushInstr (unOp k)
+
+def binOp : BinKind → UInt8
+  | .get => op.nthRow | .and => op.and | .or => op.or | .xor => op.xor | .equals => op.equals
+  | .less => op.less | .lessOrEq => op.lessOrEq | .notEquals => op.notEquals | .add => op.add
+  | .sub => op.sub | .mul => op.mul | .div => op.div | .getProperty => op.getProperty
+  | .appendTable => op.appendTable
+  | .while | .ifTrue | .ifFalse => op.exit /- unreachable: handled by their own arms -/
+
+/-- the arms with two children -/
+def binCode (k : BinKind) (a b : CM Unit) : CM Unit :=
+  match k with
+  | .while => whileCode a b
+  | .ifFalse => ifCode op.gotoIfTrue a b
+  | .ifTrue => ifCode op.gotoIfFalse a b
+  | k => do
+    withSub 0 a
+    withSub 1 b
+    pushInstr (binOp k)
+
+/-- the arms with three children -/
+def triCode (k : TriKind) (a b c : CM Unit) : CM Unit :=
+  match k with
+  | .ifElse => ifElseCode a b c
+  | .setProperty => do
+    withSub 0 a
+    withSub 1 b
+    withSub 2 c
+    pushInstr op.setProperty
+
+/-- `DynamicCall` arm (`args` = the loop over the arguments, numbered from 1) -/
+def dynamicCallCode (args function : CM Unit) : CM Unit := do
+  -- (repaired) child numbering as in `get_child`: function = 0, arguments = 1..n
+  args
+  withSub 0 function
+  pushInstr op.callFunction
+
 mutual
   /-- `process_card` -/
-  partial def processCard (card : Card) : CM Unit := do
-    let s ← get
-    insertLabel (indexHandle s.curFunction s.curIndices) s.bytecode.size
-    match card with
-    | .composite _ cards =>
-      for (c, i) in cards.zipIdx do
-        pushSub i; processCard c; popSub
-    | .forEach i k v iterable body =>
-      pushSub 0; processCard iterable; popSub
-      scopeBegin
-      let loopVar ← addLocalUnchecked ""
-      let loopItem ← addLocalUnchecked ""
-      let vIndex ← addLocalUnchecked ""
-      let kIndex ← addLocalUnchecked ""
-      let iIndex ← addLocalUnchecked ""
-      pushInstr op.beginForEach
-      emitU32 loopVar; emitU32 loopItem; emitU32 iIndex; emitU32 kIndex; emitU32 vIndex
-      let blockBegin := (← get).bytecode.size
-      pushInstr op.forEach
-      emitU32 loopVar; emitU32 loopItem; emitU32 iIndex; emitU32 kIndex; emitU32 vIndex
-      encodeIfThen op.gotoIfFalse do
-        scopeBegin
-        if let some v := v then
-          let x ← addLocal v; readLocalVar vIndex; writeLocalVar x
-        if let some k := k then
-          let x ← addLocal k; readLocalVar kIndex; writeLocalVar x
-        if let some i := i then
-          let x ← addLocal i; readLocalVar iIndex; writeLocalVar x
-        pushSub 1; processCard body; popSub
-        scopeEnd
-        pushInstr op.goto
-        emitU32 blockBegin
-      scopeEnd
-    | .bin .while cond body =>
-      let blockBegin := (← get).bytecode.size
-      pushSub 0; processCard cond; popSub
-      pushSub 1
-      encodeIfThen op.gotoIfFalse do
-        processCard body
-        pushInstr op.goto
-        emitU32 blockBegin
-      popSub
-    | .repeat i n body =>
-      pushSub 0; processCard n; popSub
-      scopeBegin
-      let loopN ← addLocalUnchecked ""
-      let loopCounter ← addLocalUnchecked ""
-      writeLocalVar loopN
-      processCard (.scalarInt 0)
-      writeLocalVar loopCounter
-      let blockBegin := (← get).bytecode.size
-      readLocalVar loopCounter
-      readLocalVar loopN
-      pushInstr op.less
-      encodeIfThen op.gotoIfFalse do
-        scopeBegin
-        if let some var := i then
-          let x ← addLocal var; readLocalVar loopCounter; writeLocalVar x
-        pushSub 1; processCard body; popSub
-        scopeEnd
-        processCard (.scalarInt 1)
-        readLocalVar loopCounter
-        pushInstr op.add
-        writeLocalVar loopCounter
-        pushInstr op.goto
-        emitU32 blockBegin
-      scopeEnd
-    | .readVar v => readVarCard v
-    | .setVar name value =>
-      compileSubexpr [value]
-      match name.splitOn "." with
-      | [] | [_] =>
-        match ← resolveVar name with
-        | .local_ i => writeLocalVar i
-        | .global => let i ← addLocal name; writeLocalVar i
-        | .upvalue i => writeUpvalue i
-      | parts =>
-        let readProps := ".".intercalate parts.dropLast
-        readVarCard readProps
-        pushInstr op.stringLiteral
-        pushStr parts.getLast!
-        pushInstr op.setProperty
-    | .setGlobalVar name value =>
-      compileSubexpr [value]
-      pushInstr op.setGlobalVar
-      if name.isEmpty then fail .emptyVariable
-      let id ← globalId name
-      emitU32 id
-    | .tri .ifElse cond thenC elseC =>
-      compileSubexpr [cond]
-      pushSub 1
-      let idxRef ← encodeIfThenRet op.gotoIfFalse do
-        processCard thenC
-        pushInstr op.goto
-        let idx := (← get).bytecode.size
-        emitU32 0xEEF
-        return idx
-      popSub
-      pushSub 2; processCard elseC; popSub
-      patchI32 idxRef (← get).bytecode.size
-    | .bin .ifFalse cond body =>
-      compileSubexpr [cond]
-      pushSub 1
-      encodeIfThen op.gotoIfTrue (processCard body)
-      popSub
-    | .bin .ifTrue cond body =>
-      compileSubexpr [cond]
-      pushSub 1
-      encodeIfThen op.gotoIfFalse (processCard body)
-      popSub
-    | .call name args =>
-      compileSubexpr args
-      pushInstr op.functionPointer
-      encodeJump name
-      pushInstr op.callFunction
-    | .stringLiteral s =>
-      pushInstr op.stringLiteral
-      pushStr s
-    | .callNative name args =>
-      compileSubexpr args
-      pushInstr op.callNative
-      emitBytes (le32 (Hash.handleFromBytes name.toUTF8.toList))
-    | .scalarInt i =>
-      pushInstr op.scalarInt
-      emitBytes (le64 i.toUInt64)
-    | .scalarFloat b =>
-      pushInstr op.scalarFloat
-      emitBytes (le64 b)
-    | .function name =>
-      pushInstr op.functionPointer
-      encodeJump name
-    | .closure arguments cards =>
-      pushInstr op.goto
-      let gotoIndex := (← get).bytecode.size
-      emitU32 0xEEF
-      -- compile_begin
-      modify fun s => { s with functionId := s.functionId + 1, locals := s.locals ++ [[]],
-                               upvalues := s.upvalues ++ [[]], scopeDepth := s.scopeDepth ++ [0] }
-      let s ← get
-      -- (repaired) keyed by the enclosing function's unique handle, not its module-local index
-      let fh := s.fnHandle ^^^ Hash.handleFromBytes (s.curIndices.flatMap (fun i => le32 (UInt32.ofNat i)))
-                  ^^^ Hash.handleFromU64 closureMask
-      insertLabel fh s.bytecode.size
-      scopeBegin
-      for p in arguments.reverse do
-        let _ ← addLocal p
-      compileSubexpr cards
-      scopeEnd
+  def processCard : Card → CM Unit
+    | .composite _ cards => do cardLabel; compileSubexprFrom 0 cards
+    | .forEach i k v iterable body => do
+      cardLabel; forEachCode i k v (processCard iterable) (processCard body)
+    | .repeat i n body => do cardLabel; repeatCode i (processCard n) (processCard body)
+    | .readVar v => do cardLabel; readVarCard v
+    | .setVar name value => do cardLabel; setVarCode name (processCard value)
+    | .setGlobalVar name value => do cardLabel; setGlobalVarCode name (processCard value)
+    | .call name args => do cardLabel; callCode name (compileSubexprFrom 0 args)
+    | .stringLiteral s => do cardLabel; pushInstr op.stringLiteral; pushStr s
+    | .callNative name args => do cardLabel; callNativeCode name (compileSubexprFrom 0 args)
+    | .scalarInt i => do cardLabel; scalarIntCode i
+    | .scalarFloat b => do cardLabel; pushInstr op.scalarFloat; emitBytes (le64 b)
+    | .function name => do cardLabel; pushInstr op.functionPointer; encodeJump name
+    | .closure arguments cards => do cardLabel; closureCode arguments (compileSubexprFrom 0 cards)
+    | .nativeFunction name => do cardLabel; pushInstr op.nativeFunctionPointer; pushStr name
+    | .array cards => do cardLabel; arrayCode (fun tableVar => processArrayItems tableVar 0 cards)
+    | .un k c => do cardLabel; unCode k (processCard c)
+    | .bin k a b => do cardLabel; binCode k (processCard a) (processCard b)
+    | .tri k a b c => do cardLabel; triCode k (processCard a) (processCard b) (processCard c)
+    | .dynamicCall args function => do
+      cardLabel; dynamicCallCode (compileSubexprFrom 1 args) (processCard function)
+    | .scalarNil => do cardLabel; pushInstr op.scalarNil
+    | .abort => do cardLabel; pushInstr op.exit
+    | .createTable => do cardLabel; pushInstr op.initTable
+    | .comment _ => do cardLabel; pure ()
+
+  /-- the loop `for (i, c) in cards.enumerate() { push i; process_card(c); pop }` of
+      `compile_subexpr`, the first sub-index being `i` -/
+  def compileSubexprFrom : Nat → List Card → CM Unit
+    | _, [] => pure ()
+    | i, c :: cs => do
+      withSub i (processCard c)
+      compileSubexprFrom (i + 1) cs
+
+  /-- the loop over the elements of an `Array` card -/
+  def processArrayItems (tableVar : Nat) : Nat → List Card → CM Unit
+    | _, [] => pure ()
+    | i, c :: cs => do
       pushInstr op.scalarNil
-      pushInstr op.ret
-      patchI32 gotoIndex (← get).bytecode.size
-      pushInstr op.closure
-      emitBytes (le32 fh)
-      emitU32 arguments.length
-      let s ← get
-      let ups := s.upvalues.getD s.functionId []
-      for (isLocal, index) in ups do
-        pushInstr op.copyLast
-        pushInstr op.registerUpvalue
-        emitBytes [index, if isLocal then 1 else 0]
-      -- compile_end
-      modify fun s => { s with functionId := s.functionId - 1, locals := s.locals.dropLast,
-                               upvalues := s.upvalues.dropLast, scopeDepth := s.scopeDepth.dropLast }
-    | .nativeFunction name =>
-      pushInstr op.nativeFunctionPointer
-      pushStr name
-    | .array cards =>
-      pushInstr op.initTable
-      let tableVar ← addLocalUnchecked ""
-      writeLocalVar tableVar
-      for (c, i) in cards.zipIdx do
-        pushInstr op.scalarNil
-        pushSub i; processCard c; popSub
-        readLocalVar tableVar
-        pushInstr op.appendTable
+      withSub i (processCard c)
       readLocalVar tableVar
-    | .un k c =>
-      compileSubexpr [c]
-      pushInstr (match k with | .len => op.len | .ret => op.ret | .not => op.not | .popTable => op.popTable)
-    | .bin k a b =>
-      compileSubexpr [a, b]
-      pushInstr (match k with
-        | .get => op.nthRow | .and => op.and | .or => op.or | .xor => op.xor | .equals => op.equals
-        | .less => op.less | .lessOrEq => op.lessOrEq | .notEquals => op.notEquals | .add => op.add
-        | .sub => op.sub | .mul => op.mul | .div => op.div | .getProperty => op.getProperty
-        | .appendTable => op.appendTable
-        | .while | .ifTrue | .ifFalse => op.exit /- unreachable: handled above -/)
-    | .tri .setProperty a b c =>
-      compileSubexpr [a, b, c]
-      pushInstr op.setProperty
-    | .dynamicCall args function =>
-      -- (repaired) child numbering as in `get_child`: function = 0, arguments = 1..n
-      for (c, i) in args.zipIdx do
-        pushSub (i + 1); processCard c; popSub
-      pushSub 0; processCard function; popSub
-      pushInstr op.callFunction
-    | .scalarNil => pushInstr op.scalarNil
-    | .abort => pushInstr op.exit
-    | .createTable => pushInstr op.initTable
-    | .comment _ => pure ()
-
-  /-- `compile_subexpr` -/
-  partial def compileSubexpr (cards : List Card) : CM Unit := do
-    for (c, i) in cards.zipIdx do
-      pushSub i; processCard c; popSub
-
-  /-- `encode_if_then` -/
-  partial def encodeIfThen (skip : UInt8) (thenBlock : CM Unit) : CM Unit := do
-    pushInstr skip
-    let idx := (← get).bytecode.size
-    emitU32 0
-    thenBlock
-    patchI32 idx (← get).bytecode.size
-
-  partial def encodeIfThenRet (skip : UInt8) (thenBlock : CM Nat) : CM Nat := do
-    pushInstr skip
-    let idx := (← get).bytecode.size
-    emitU32 0
-    let r ← thenBlock
-    patchI32 idx (← get).bytecode.size
-    return r
+      pushInstr op.appendTable
+      processArrayItems tableVar (i + 1) cs
 end
+
+/-- `compile_subexpr` -/
+def compileSubexpr (cards : List Card) : CM Unit := compileSubexprFrom 0 cards
+
+/-- the loop over the top-level cards of a function: `pop; push ic; process_card` -/
+def processFunctionCards : Nat → List Card → CM Unit
+  | _, [] => pure ()
+  | ic, c :: cs => do
+    popSub
+    pushSub ic
+    processCard c
+    processFunctionCards (ic + 1) cs
 
 /-- `process_function` -/
 def processFunction (f : FunctionIr) : CM Unit := do
   modify fun s => { s with ns := f.ns, imports := f.imports, fnHandle := f.handle }
-  for p in f.arguments.reverse do
-    let _ ← addLocal p
-  for (c, ic) in f.cards.zipIdx do
-    popSub
-    pushSub ic
-    processCard c
+  addLocals f.arguments.reverse
+  processFunctionCards 0 f.cards
 
 def addFunction (f : FunctionIr) : CM Unit := do
   let s ← get
@@ -589,11 +725,34 @@ def addFunction (f : FunctionIr) : CM Unit := do
   if s.jumpTable.any (fun p => p.1 == f.fullName) then fail .duplicateName
   modify fun s => { s with jumpTable := s.jumpTable ++ [(f.fullName, (f.handle, UInt32.ofNat f.arguments.length))] }
 
+/-- stage 1 of `Compiler::compile`: register every function in the jump table -/
+def addFunctions : List FunctionIr → CM Unit
+  | [] => pure ()
+  | f :: fs => do
+    addFunction f
+    addFunctions fs
+
+/-- one non-main function of stage 2 -/
+def compileFunction (f : FunctionIr) : CM Unit := do
+  modify fun s => { s with curFunction := f.functionIndex, curIndices := [] }
+  insertLabel f.handle (← get).bytecode.size
+  scopeBegin
+  processFunction f
+  scopeEnd
+  pushInstr op.scalarNil
+  pushInstr op.ret
+
+/-- stage 2 of `Compiler::compile` for the functions after `main` -/
+def compileFunctions : List FunctionIr → CM Unit
+  | [] => pure ()
+  | f :: fs => do
+    compileFunction f
+    compileFunctions fs
+
 /-- `Compiler::compile` -/
 def compileUnit (unit : Array FunctionIr) : CM Unit := do
   if unit.isEmpty then fail .emptyProgram
-  for f in unit do
-    addFunction f
+  addFunctions unit.toList
   -- stage 2
   let main := unit[0]!
   modify fun s => { s with curFunction := main.functionIndex, curIndices := [0] }
@@ -602,14 +761,7 @@ def compileUnit (unit : Array FunctionIr) : CM Unit := do
   modify fun s => { s with curFunction := main.functionIndex, curIndices := [main.cards.length] }
   scopeEnd
   processCard .abort
-  for f in unit.toList.drop 1 do
-    modify fun s => { s with curFunction := f.functionIndex, curIndices := [] }
-    insertLabel f.handle (← get).bytecode.size
-    scopeBegin
-    processFunction f
-    scopeEnd
-    pushInstr op.scalarNil
-    pushInstr op.ret
+  compileFunctions (unit.toList.drop 1)
   modify fun s => { s with imports := [] }
   pushInstr op.exit
 
